@@ -4,6 +4,11 @@ import json, os, subprocess
 V = os.path.dirname(os.path.abspath(__file__))
 
 CHECKS = {
+ 'C09': dict(cat='fault_enumeration', tech='exhaustive fault-point enumeration (fail exactly the i-th allocation for every i) plus exhaustive argument-boundary sweeps and single-bit authentication corruptions on the real code under ASan',
+             text='For every high-level call of the corpora the number N of allocation points is measured and the call is re-run N times with exactly the i-th allocation failing (malloc and realloc, realloc always moving): '
+                  'it must return an error, leave nothing allocated and not crash; each length/scalar argument is swept across and beyond its documented domain and must give the documented error class with all writes '
+                  'inside exact-size buffers; every single-bit corruption of tag/header/ciphertext makes unwrap fail without releasing any 8-octet window of the plaintext.',
+             note='trusted: link-time --wrap of the allocator, ASan runtime, error classes transcribed from the headers', ref='4/C09'),
  'C10': dict(cat='model_checking', tech='explicit-state search (BFS) over (position, raw bytes of the real state blob) with every admissible fragment length, Get/Verify and relocation as transitions',
              text='For each Start/Step/Get bundle the reachable set of (position, state bytes) nodes is closed under Step(f) for every admissible fragment length, Get/Get2/Verify (continuing from the state after Get '
                   'where the header allows it) with every transition executed on a relocated copy of the state while the vacated locations stay poisoned; since the code is a deterministic function of (state bytes, '
